@@ -390,11 +390,98 @@ func (fr *Frame) quantifier(forall bool, clo Val) Term {
 	vc.qdepth++
 	body := vc.evalSpecFn(fn, args, clo.Clo.bindings, fr.st, fr.old)
 	vc.qdepth--
+	// a single 8-bit bound variable ranges over 256 values: expand into a finite conjunction or
+	// disjunction (the instances fold to small bit tests, which the solvers decide at once)
+	if len(fn.Params) == 1 && args[0].T.Sort == bvSort(8) && vc.qdepth == 0 && len(body.T.S) < 3000 && !strings.Contains(body.T.S, "(forall ") && !strings.Contains(body.T.S, "(exists ") && !underSelect(body.T.S, args[0].T.S) {
+		var insts []Term
+		name := args[0].T.S
+		for k := 0; k < 256; k++ {
+			insts = append(insts, Term{replaceSym(body.T.S, name, fmt.Sprintf("(_ bv%d 8)", k)), SBool})
+		}
+		if forall {
+			return Term{"(=> true (and " + joinTerms(insts) + "))", SBool}
+		}
+		return Term{"(or " + joinTerms(insts) + ")", SBool}
+	}
 	q := "forall"
 	if !forall {
 		q = "exists"
 	}
 	return Term{fmt.Sprintf("(%s (%s) %s)", q, strings.Join(bound, " "), body.T.S), SBool}
+}
+
+// underSelect reports whether sym occurs inside the arguments of a select or store.
+func underSelect(s, sym string) bool {
+	var ops []string
+	i := 0
+	for i < len(s) {
+		switch s[i] {
+		case '(':
+			j := i + 1
+			for j < len(s) && s[j] != ' ' && s[j] != ')' && s[j] != '(' {
+				j++
+			}
+			ops = append(ops, s[i+1:j])
+			i = j
+		case ')':
+			if len(ops) > 0 {
+				ops = ops[:len(ops)-1]
+			}
+			i++
+		case ' ':
+			i++
+		default:
+			j := i
+			for j < len(s) && s[j] != ' ' && s[j] != ')' && s[j] != '(' {
+				j++
+			}
+			if s[i:j] == sym {
+				for _, o := range ops {
+					if o == "select" || o == "store" {
+						return true
+					}
+				}
+			}
+			i = j
+		}
+	}
+	return false
+}
+
+func joinTerms(ts []Term) string {
+	var sb strings.Builder
+	for i, t := range ts {
+		if i > 0 {
+			sb.WriteByte(' ')
+		}
+		sb.WriteString(t.S)
+	}
+	return sb.String()
+}
+
+// replaceSym replaces whole-token occurrences of sym in an SMT term.
+func replaceSym(s, sym, by string) string {
+	var sb strings.Builder
+	i := 0
+	for i < len(s) {
+		j := strings.Index(s[i:], sym)
+		if j < 0 {
+			sb.WriteString(s[i:])
+			break
+		}
+		j += i
+		end := j + len(sym)
+		okL := j == 0 || s[j-1] == ' ' || s[j-1] == '('
+		okR := end == len(s) || s[end] == ' ' || s[end] == ')'
+		sb.WriteString(s[i:j])
+		if okL && okR {
+			sb.WriteString(by)
+		} else {
+			sb.WriteString(sym)
+		}
+		i = end
+	}
+	return sb.String()
 }
 
 // ---- contract calls -------------------------------------------------------------------------
@@ -1098,6 +1185,7 @@ func (fr *Frame) appendBuiltin(t *ssa.Call) {
 	newLen := vc.name("applen", app(bv, "bvadd", slen(s), n))
 	inplace := vc.name("inplace", app(SBool, "bvule", newLen, scap(s)))
 	fresh := vc.newAlloc(fr.st, true)
+	vc.markFresh(st.Elem())
 	newCap := vc.freshConst("appcap", bv)
 	vc.assume(and(app(SBool, "bvule", newLen, newCap), app(SBool, "bvule", newCap, Term{"#x0000010000000000", bv})))
 	rptr := vc.name("appptr", ite(inplace, sptr(s), fresh))
